@@ -290,12 +290,22 @@ func (ms *Modules) process() []error {
 	// Collect the list of modules we know about now so when we range
 	// below we don't pick up new modules.  We assume the user tells
 	// us explicitly which modules they are interested in.
-	for _, m := range ms.Modules {
-		mods = append(mods, m)
-	}
-	for _, m := range mods {
-		if err := ms.include(m); err != nil {
-			errs = append(errs, err)
+	mods = sortedModules(ms.Modules)
+	// Linking loads the modules that are missing, and what an import
+	// without a revision date denotes depends on the modules that are
+	// loaded.  Link again until a pass has loaded nothing, so that the
+	// links do not depend on the order in which the modules are visited.
+	for {
+		loaded := len(ms.Modules) + len(ms.SubModules)
+		ms.includes = map[*Module]bool{}
+		errs = nil
+		for _, m := range mods {
+			if err := ms.include(m); err != nil {
+				errs = append(errs, err)
+			}
+		}
+		if len(ms.Modules)+len(ms.SubModules) == loaded {
+			break
 		}
 	}
 
